@@ -968,7 +968,8 @@ pub fn try_add_op(r: &mut Rng, cfg: &GenCfg, st: &mut GenState) {
     let mut post = None;
     let mut pre = vec![];
     if cfg.toggles {
-        if r.chance(1, 6) {
+        // never on an alias (`sum(0)` hands back the same node through a clone: its flags are the operand's)
+        if r.chance(1, 6) && !kind.is_alias() {
             post = Some(r.chance(1, 2));
         }
         if r.chance(1, 6) {
